@@ -37,6 +37,11 @@ CAT = {
              ('w', 3, (1.3, 0.7, 0.2), (1.3, 0.7, 1.4), 0.003)], False),
     'G18': ([('w', 3, (0.0, 0.0, 0.0), (0.0, 0.0, 1.5), 0.002),
              ('w', 3, (1.3, 0.7, 0.0), (1.3, 0.7, 1.2), 0.003)], True),
+    # two wires exactly in line with exactly equal segment lengths but different radii (a straight conductor that changes diameter)
+    'G19': ([('w', 3, (0.0, 0.0, 1.0), (1.5, 0.0, 1.0), 0.002),
+             ('w', 3, (1.5, 0.0, 1.0), (3.0, 0.0, 1.0), 0.06)], False),
+    'G20': ([('w', 3, (0.0, 0.0, 1.0), (1.5, 0.0, 1.0), 0.002),
+             ('w', 3, (1.5, 0.0, 1.0), (3.0, 0.0, 1.0), 0.06)], True),
     'G16': ([('w', 4, (0.2, 0.1, 2.0), (0.0, 0.0, 0.0), 0.002),
              ('w', 2, (0.2, 0.1, 2.0), (1.1, 0.4, 2.1), 0.003)], True),
 }
